@@ -60,6 +60,8 @@ ParseClauses(T) ==
        \cup (IF canwrite /\ (o.dump.status # "ok" \/ o.dump.b # enc.b) THEN {"dump"} ELSE {})
        \cup (IF canwrite /\ o.dump.status = "ok"
                 /\ (Len(o.dump.b) # r.pos - T.start \/ o.dump.b # AndBytes(window, enc.k)) THEN {"fidelity"} ELSE {})
+       \* write() reports the number of bytes it produced (and produces what dumps() does)
+       \cup (IF canwrite /\ o.dump.status = "ok" /\ Has(o.dump, "wcount") /\ o.dump.wcount # Len(o.dump.b) THEN {"write-count"} ELSE {})
        \cup (IF canwrite /\ enc.b # AndBytes(window, enc.k) THEN {"SPECBUG:fidelity-theorem"} ELSE {})
        \cup (IF canwrite /\ o.dump.status = "ok" /\ o.dump.b # enc.b /\ o.dump.b = EncodeKnownDeviation(T.type, T.mode, r.v)
              THEN {"KF:F16"} ELSE {})
